@@ -458,7 +458,21 @@ ENTITY_GETTERS = {
         p.mdib.entities.by_node_type(A._names().NumericMetricDescriptor), key=lambda e: e.handle)[0]),
     'entities.by_parent_handle(ch0)': lambda p: _flat(sorted(p.mdib.entities.by_parent_handle(A.CH), key=lambda e: e.handle)[0]),
     'entities.items()': lambda p: _flat(dict(p.mdib.entities.items())[A.STR1]),
+    # an entity that was refreshed from the MDIB (after a later commit made it stale) is still a private copy
+    'entities.by_handle(metric).update()': lambda p: _flat(_refreshed(p, A.NUM1, 'metric(N1,2)')),
+    'entities.by_handle(patient).update()': lambda p: _flat(_refreshed(p, A.PAT, 'patient-update-first(X)')),
+    'entities.by_handle(alert-condition).update()': lambda p: _flat(_refreshed(p, A.AC, 'alert-cond(on)')),
 }
+
+
+def _refreshed(p, handle, event):
+    ent = p.mdib.entities.by_handle(handle)
+    try:
+        A.apply(p, event)
+    except A.Disabled:
+        pass
+    ent.update()
+    return ent
 
 
 def _flat(ent):
